@@ -57,6 +57,11 @@ P = {
         note="Exact-rational model of binary64 inputs, 1e-9 relative; percents coinciding with a re-scaled observation are not compared (counted); the extrapolation filter is modelled from source text only.",
         tech="Coq proof over Q (field/nra) + differential correspondence on generated version histories",
         ref="DESIGN.md section 5 C17"),
+    "C19": dict(
+        text="Theorems for every page list (any number and size of pages), every window incl. open-ended ones: under the S3 listing contract (newest first; every page but the last truncated and non-empty) the recursive paging with early stop equals the plain filter of the whole listing; no version twice; sampling picks positions 0,k,2k,..; retrieval returns the sampled versions minus failed downloads, each stamped with its own time, and 'no data' for an empty window. Correspondence against a scripted fake service (page sizes 1..N+1, windows on and between timestamps, ties, steps 1-4, failure subsets).",
+        note="Storage service and transport are a scripted fake; induction is over the page list.",
+        tech="Coq proof by induction over the page list (StronglySorted listing) + scripted-service differential correspondence",
+        ref="DESIGN.md section 5 C19"),
 }
 
 REASON_NOT_BUILT = "check not built yet in this development stage (planned: see DESIGN.md section 5)"
